@@ -3,7 +3,7 @@
     returned entry (numbered in creation order) and the total number of
     resident entries (sum of the shards' Len()).  The model replays the ops. *)
 From Coq Require Import List Arith Bool NArith ZArith.
-From Pike Require Import Model.LRU Model.Dispatcher.
+From Pike Require Import Model.LRU Model.Dispatcher Model.Sys Model.Multi.
 Import ListNotations.
 
 (** a key is (index in the harness's key population, runtime hash of the key) *)
@@ -69,11 +69,49 @@ Definition case_monitor_lru (k : dconsts) (c : lru_case) : bool :=
   let z := zone_count k (lc_size c) in
   mon_lru z (Z.to_nat (eff_size k (lc_size c) / Z.of_nat z)) [] 0%N (lc_ops c).
 
+(** Third reading of the same histories, through the COMPOSED model
+    (Model/Multi.v: dispatcher + one protocol state per key): a lookup is a new
+    request of the key that runs its first step (the dispatcher's
+    get-or-create); a removal is a purge.  The implementation found the key
+    resident iff the key's protocol state had a resident generation, and the
+    number of resident entries is the number of keys that have one. *)
+Definition mk_choice : choice := {| ch_outcome := OFail; ch_read_ok := true; ch_write_ok := true |}.
+
+Definition live_count (m : @mstate ckey) : nat :=
+  List.length (filter (fun ks => match cur (snd ks) with Some _ => true | None => false end) (m_keys m)).
+
+Fixpoint replay_multi (m : @mstate ckey) (next : N) (ops : list lru_op) : bool :=
+  match ops with
+  | [] => true
+  | o :: r =>
+      let k := lo_key o in
+      if lo_get o then
+        let was_live := live ckey_eqb m k in
+        let i := List.length (ts (sys_of ckey_eqb m k)) in
+        match mrun ckey_eqb ckey_hash m [MArrive k false; MRun k i mk_choice] with
+        | Some m' =>
+            let observed_resident := negb (N.eqb (lo_id o) next) in
+            Bool.eqb was_live observed_resident
+            && Nat.eqb (live_count m') (lo_resident o)
+            && replay_multi m' (if observed_resident then next else N.succ next) r
+        | None => false
+        end
+      else
+        match mstep ckey_eqb ckey_hash m (MPurge k true) with
+        | Some m' => Nat.eqb (live_count m') (lo_resident o) && replay_multi m' next r
+        | None => false
+        end
+  end.
+
+Definition case_agrees_multi (k : dconsts) (c : lru_case) : bool :=
+  replay_multi (minit (new_dispatcher k (lc_size c)) 1000000 0 false) 0%N (lc_ops c).
+
 Fixpoint failing {A} (f : A -> bool) (i : nat) (l : list A) : list nat :=
   match l with
   | [] => []
   | x :: r => if f x then failing f (S i) r else i :: failing f (S i) r
   end.
 
-Definition check_cases (k : dconsts) (cs : list lru_case) : list nat * list nat * list nat :=
-  (failing (case_agrees k) 0 cs, failing (case_monitor k) 0 cs, failing (case_monitor_lru k) 0 cs).
+Definition check_cases (k : dconsts) (cs : list lru_case) : list nat * list nat * list nat * list nat :=
+  (failing (case_agrees k) 0 cs, failing (case_monitor k) 0 cs, failing (case_monitor_lru k) 0 cs,
+   failing (case_agrees_multi k) 0 cs).
